@@ -163,10 +163,14 @@ func c03R1(h H) {
 			"the decision tests a flag whose every 'true' assignment lies behind all three credential tests", authDesc...)
 		r.Check(len(protFalse) > 0, "R1", "basicauth.BasicAuth.ServeHTTP/protected-flag", fn.Pos(),
 			"the decision tests a flag raised behind Path.Matches(resource) and under no credential condition", protDesc...)
-		optEdges := guardEdges(fn, true, func(v ssa.Value) bool {
-			x, eq, lit, ok := strCmp(v)
-			return ok && eq && lit == "OPTIONS" && readsField(x, "Method")
-		})
+		optEdges := map[edge]bool{}
+		for _, i := range ifs(fn) {
+			v, flip := stripNot(i.Cond)
+			if x, eq, lit, ok := strCmp(v); ok && lit == "OPTIONS" && readsField(x, "Method") {
+				// the edge on which the method IS OPTIONS, whichever way the comparison is written
+				optEdges[condEdge{i, eq != flip}.edge()] = true
+			}
+		}
 		allowed := map[edge]bool{}
 		for e := range authTrue {
 			allowed[e] = true
